@@ -136,6 +136,9 @@ func genericFor(id string, p *Prog, r *Report) {
 	case "C14":
 		recordLinkRule(p, r, "R14.8", modset("vault", "locker", "lend"), 20)
 	}
+	if rr, ok := replScopes[id]; ok {
+		replacedFieldRule(p, r, rr.rule, rr.mods, rr.floor)
+	}
 	if id == "C13" {
 		sideAgreementRule(p, r, "R13.6", modset("auction", "auctionsV2", "liquidation", "liquidationsV2", "collector", "esm", "vault", "lend"), 10)
 	}
@@ -238,4 +241,17 @@ func isAmountType(t types.Type) bool {
 
 var sideExceptions = map[string]string{
 	"x/auctionsV2/keeper.Keeper.CloseEnglishAuction -> MintNewTokensForApp arg 4": "debt-initiated V2 auctions are created with the two ids swapped on purpose (CheckStatsForSurplusAndDebt passes the collector asset as DebtAssetID to DebtTokenAmount and CreateLockedVault), so DebtAssetId names the governance token that is minted and CollateralToken is an amount of it",
+}
+
+// replaced-field rule per property
+var replScopes = map[string]struct {
+	rule  string
+	mods  map[string]bool
+	floor int
+}{
+	"C01": {"R01.10", modset("vault"), 20},
+	"C08": {"R08.8", modset("lend"), 50},
+	"C10": {"R10.9", modset("auction", "auctionsV2"), 100},
+	"C13": {"R13.8", modset("locker", "collector"), 10},
+	"C18": {"R18.4", modset("rewards", "lend"), 50},
 }
